@@ -11,6 +11,8 @@ From Coq Require Import List.
 Import ListNotations.
 Require Import MV.Lib.Base MV.C04.Gen.
 Open Scope list_scope.
+Set Implicit Arguments.
+Set Maximal Implicit Insertion.
 Open Scope Z_scope.
 
 (* ------------------------------------------------------------------ small Python-list helpers *)
@@ -246,6 +248,9 @@ Definition parse_off (ls : list line) : option raw :=
   | _ => None
   end.
 Definition vocab_off (m : mesh) : raw := raw_of (map v3 (mV m)) [] (mF m) [].
+(* faces of fewer than 3 vertices are outside what an OFF file gives back as faces:
+   `2 a b` is read as an edge, `1 a` and `0` are skipped *)
+Definition off_ok (m : mesh) : Prop := Forall (fun f => 3 <= zlen f) (mF m).
 
 (* ------------------------------------------------------------------ tet.py *)
 Definition print_tet (m : mesh) : list line :=
@@ -375,7 +380,16 @@ Definition vocab_medit (m : mesh) : option raw :=
 
 End Codec.
 
+
+
+
+
 Arguments TInt {Ftxt Ctxt} z.
 Arguments TFlt {Ftxt Ctxt} t.
 Arguments TCx {Ftxt Ctxt} c.
 Arguments TWord {Ftxt Ctxt} s.
+Arguments VBool {F Cx} b.
+Arguments VInt {F Cx} z.
+Arguments VFloat {F Cx} x.
+Arguments VCx {F Cx} c.
+Arguments VStr {F Cx} s.
